@@ -190,7 +190,8 @@ def release_harness(ctx: Ctx):
     C0, T0, W0 = C.snapshot(), T.snapshot(), W.snapshot()
     w0 = H0[("ndarray", "writeable")]
     n = z3.If(C0[0][a], C0[1][a], 0)
-    # the trailing loop over waiting views is cut (its contract is covered by the bounded check): loop spec with a trivial invariant
+    # the trailing loop over waiting views: entry obligations + the contract of one arbitrary iteration (iteration_contract below); the loop spec
+    # itself only marks the cut
     spec = LoopSpec(invariant=lambda i_, e_, k: [], modifies=("view_arr_id", "view_arr"), heap_modifies=[])
     cfg.loop_specs[(f"{LM}:_release_lock_on_arr_writeability", 0)] = spec
     f = interp.global_lookup(interp.module(LM), "_release_lock_on_arr_writeability")
@@ -207,7 +208,53 @@ def release_harness(ctx: Ctx):
         wN = ctx.heap[("ndarray", "writeable")]
         ctx.oblige(f"{tag}.waiting_views_processed_only_when_owner_is_writeable_again", z3.And(b == 0, wN[a]), **meta)
         post(True)
+        iteration_contract(node, frame)
         raise PathCut()
+
+    def iteration_contract(node, frame):
+        """One arbitrary iteration of the loop over the views waiting for `a`, for an arbitrary waiting id v (the loop body runs on the real AST).
+        Table invariant assumed for the entry: v waits under the id of its own base (established at the insertion site, obligation
+        n1.view_waits_for_locked_base), v is not the base itself.  Ensures, with c = _array_counter[v] (0 when absent):
+          c > 0  : nothing changes at all (the view is in use by a newer operation and keeps waiting)
+          c <= 0 : v leaves the waiting set and the tracker; if its tracker entry referred to a live array -- then it is v -- that array is
+                   writeable afterwards (legal: its base `a` is writeable again)
+          frame  : no other key of the counter / tracker / flags, no other member of the waiting set, no other waiting set is touched
+        Iterations for different ids touch disjoint keys, so the state an iteration starts from agrees with the loop-entry state at v and at a;
+        the per-iteration contract therefore gives, by induction over the enumeration, "after the loop every waiting view not in use has been
+        released and forgotten, every view in use still waits".  (The cleanup statement after the loop -- dropping an empty waiting set -- is
+        not under contract.)"""
+        from pyvc.interp import _Continue
+
+        h = ctx.heap
+        v = z3.Int("v*")
+        ctx.assume(z3.And(v >= 1, v != a, z3.Select(z3.Select(W.val, a), v), W.dom[a]))
+        ctx.assume(h[("ndarray", "base")][v] == a)
+        ctx.assume(z3.Implies(T.has(v), z3.Or(T.get_raw(v) == v, z3.And(T.get_raw(v) != 0, z3.Not(ALIVE[T.get_raw(v)])))))
+        C1, T1, W1 = C.snapshot(), T.snapshot(), W.snapshot()
+        w1 = h[("ndarray", "writeable")]
+        nlog = len(log)
+        cv = z3.If(C1[0][v], C1[1][v], 0)
+        interp.assign(node.target, v, frame)
+        try:
+            interp.exec_block(node.body, frame)
+        except _Continue:
+            pass
+        wN = ctx.heap[("ndarray", "writeable")]
+        kS, uS = z3.Int("k*"), z3.Int("u*")
+        itag, imeta = f"{tag}.iteration", dict(meta, part="one arbitrary iteration of the waiting-view loop")
+        busy = cv > 0
+        same_everything = z3.And(C.dom == C1[0], C.val == C1[1], T.dom == T1[0], T.val == T1[1], W.dom == W1[0], W.val == W1[1], wN == w1)
+        ctx.oblige(f"{itag}.view_in_use_keeps_waiting_untouched", z3.Implies(busy, same_everything), **imeta)
+        ctx.oblige(f"{itag}.idle_view_leaves_waiting_set_and_tracker", z3.Implies(z3.Not(busy), z3.And(z3.Not(z3.Select(z3.Select(W.val, a), v)), z3.Not(T.dom[v]))), **imeta)
+        live = z3.And(T1[0][v], ALIVE[T1[1][v]])
+        ctx.oblige(f"{itag}.idle_live_view_made_writeable", z3.Implies(z3.And(z3.Not(busy), live), wN[v]), **imeta)
+        ctx.oblige(f"{itag}.dead_or_untracked_view_no_flag_write", z3.Implies(z3.And(z3.Not(busy), z3.Not(live)), wN == w1), **imeta)
+        ctx.oblige(f"{itag}.frame.other_keys", z3.Implies(kS != v, z3.And(C.dom[kS] == C1[0][kS], C.val[kS] == C1[1][kS], T.dom[kS] == T1[0][kS], T.val[kS] == T1[1][kS], wN[kS] == w1[kS])), **imeta)
+        ctx.oblige(f"{itag}.frame.counter_of_the_view", z3.And(C.dom[v] == C1[0][v], z3.Implies(C.dom[v], C.val[v] == C1[1][v])), **imeta)
+        ctx.oblige(f"{itag}.frame.other_waiting_members", z3.Implies(uS != v, z3.Select(z3.Select(W.val, a), uS) == z3.Select(z3.Select(W1[1], a), uS)), **imeta)
+        ctx.oblige(f"{itag}.frame.other_waiting_sets", z3.Implies(kS != a, z3.And(W.dom[kS] == W1[0][kS], z3.Select(W.val, kS) == z3.Select(W1[1], kS))), **imeta)
+        ctx.oblige(f"{itag}.no_illegal_flag_write", not any(e[0] == "illegal-flag-write" for e in log[nlog:]), **imeta)
+        ctx.oblige(f"{itag}.frame.base_field", ctx.heap[("ndarray", "base")] == H0[("ndarray", "base")], **imeta)
 
     def post(in_loop_branch):
         wN = ctx.heap[("ndarray", "writeable")]
